@@ -68,6 +68,8 @@ def generate(prop, rng):
                                       (3, "remd5")])
             q = {"op": o, "kind": kind, "file": rng.randrange(nfiles), "with_info": rng.random() < 0.5,
                  "subset": rng.random(), "persist": rng.random() < 0.4}
+            if kind == "snap_index" and not big and rng.random() < 0.35:
+                q["between"] = {"same_len": rng.random() < 0.5}
             if kind == "remd5" and rng.random() < 0.6:
                 q["read_fault"] = {"nth": rng.randint(1, 3), "exc": rng.choice(["EACCES", "EIO"])}
             if kind == "hash_file" and not big and rng.random() < 0.3:
@@ -562,7 +564,14 @@ def execute(sc, ctx):
                     judge(files.index(rel), e.hash_info.name, e.hash_info.value, "index.md5(again)")
             note_saved(range(len(files)))
         elif kind == "snap_index":
-            old_index = imd5(ibuild(ws, fs), state=state)
+            built = ibuild(ws, fs)
+            if op.get("between") and cur.get(i) is not None:
+                # somebody rewrites a file after the workspace was listed and before its hashes are looked up
+                ctx.clock.advance(10**9)
+                write(i, fresh(11, len(cur[i]) if op["between"]["same_len"] else None),
+                      "same_len" if op["between"]["same_len"] else "diff_len")
+                ctx.probe("file_rewritten_between_build_and_md5")
+            old_index = imd5(built, state=state)
             if op.get("persist"):
                 # the previous index is written to disk and read back by a later command:
                 # only the serialised metadata survives (no inode / mtime)
